@@ -24,12 +24,26 @@ pub open spec fn cl_attrs_in_range(m: Seq<CL03Message>, lm: nat) -> bool {
 
 // ---- Boudot 2000: proof of same secret -----------------------------------------------------------------------
 /// W_1 = g_1^d h_1^{d_1} E^{-c},  W_2 = g_2^d h_2^{d_2} F^{-c};  c' = H(W_1 || W_2) (decimal strings)
+pub open spec fn ss_w_i(e: int, g: int, h: int, n: int, c: int, d: int, d_i: int) -> int {
+    (pow_mod(g, d, n) * pow_mod(h, d_i, n) * pow_mod(e, -1 * c, n)) % n
+}
 pub open spec fn ss_w(e: Integer, g: Integer, h: Integer, n: Integer, c: int, d: int, d_i: int) -> int {
-    (pow_mod(g@, d, n@) * pow_mod(h@, d_i, n@) * pow_mod(e@, -1 * c, n@)) % n@
+    ss_w_i(e@, g@, h@, n@, c, d, d_i)
 }
 
+pub open spec fn ss_challenge_i<H>(e: int, f: int, g_1: int, h_1: int, g_2: int, h_2: int, n: int, p: ProofSs) -> int {
+    from_digits_be(hash_str::<H>(dec_string(ss_w_i(e, g_1, h_1, n, p.challenge@, p.d@, p.d_1@)) + dec_string(ss_w_i(f, g_2, h_2, n, p.challenge@, p.d@, p.d_2@))))
+}
 pub open spec fn ss_challenge<H>(e: Integer, f: Integer, g_1: Integer, h_1: Integer, g_2: Integer, h_2: Integer, n: Integer, p: ProofSs) -> int {
-    from_digits_be(hash_str::<H>(dec_string(ss_w(e, g_1, h_1, n, p.challenge@, p.d@, p.d_1@)) + dec_string(ss_w(f, g_2, h_2, n, p.challenge@, p.d@, p.d_2@))))
+    ss_challenge_i::<H>(e@, f@, g_1@, h_1@, g_2@, h_2@, n@, p)
+}
+/// verifier's predicate of the proof of same secret (Algorithm 2)
+pub open spec fn ss_accept_i<H>(e: int, f: int, g_1: int, h_1: int, g_2: int, h_2: int, n: int, p: ProofSs) -> bool {
+    p.challenge@ == ss_challenge_i::<H>(e, f, g_1, h_1, g_2, h_2, n, p)
+}
+/// verifier's predicate of the proof of square (Algorithm 4): same secret x in F = g^x h^{r2} and E = F^x h^{r3}
+pub open spec fn square_accept_i<H>(p: ProofOfS, g: int, h: int, n: int) -> bool {
+    ss_accept_i::<H>(p.F@, p.E@, g, h, p.F@, h, n, p.proof_ss)
 }
 
 /// modular division a / b mod m (divm): the x with b*x = a (mod m)
@@ -40,16 +54,25 @@ pub proof fn ax_divm(a: int, b: int, m: int)
     ensures (divm_spec(a, b, m) * b) % m == a % m, 0 <= divm_spec(a, b, m) < m,
 { admit(); }
 
+/// the solution of b*x = a (mod m) in [0, m) is unique when b is a unit (part of the assumed contract of divm)
+pub proof fn ax_divm_unique(a: int, b: int, m: int, y: int)
+    requires invertible(b, m), (y * b) % m == a % m, 0 <= y < m,
+    ensures y == divm_spec(a, b, m),
+{ admit(); }
+
 // ---- Boudot 2000: larger-interval proof, tolerance proof ------------------------------------------------------
 pub open spec fn li_c(p: ProofLi, t: nat) -> int { p.C@ % ipow(2, t) }
 
 /// verifier's acceptance condition of the proof of larger interval (Algorithm 6)
-pub open spec fn li_accept<H>(p: ProofLi, e: Integer, g: Integer, h: Integer, n: Integer, t: nat, l: nat, b: int, tt: nat) -> bool {
+pub open spec fn li_accept_i<H>(p: ProofLi, e: int, g: int, h: int, n: int, t: nat, l: nat, b: int, tt: nat) -> bool {
     let c = li_c(p, t);
-    let commit = (pow_mod(g@, p.D_1@, n@) * pow_mod(h@, p.D_2@, n@) * pow_mod(e@, -1 * c, n@)) % n@;
+    let commit = (pow_mod(g, p.D_1@, n) * pow_mod(h, p.D_2@, n) * pow_mod(e, -1 * c, n)) % n;
     &&& c * b <= p.D_1@
     &&& p.D_1@ <= ipow(2, tt) * (ipow(2, t + l) * b - 1)
     &&& p.C@ == from_digits_be(hash_str::<H>(dec_string(commit)))
+}
+pub open spec fn li_accept<H>(p: ProofLi, e: Integer, g: Integer, h: Integer, n: Integer, t: nat, l: nat, b: int, tt: nat) -> bool {
+    li_accept_i::<H>(p, e@, g@, h@, n@, t, l, b, tt)
 }
 
 /// the bound the PROVER's loop exits with (Algorithm 5): c*b <= D_1 <= 2^T * 2^(t+l) * b - 1
@@ -62,6 +85,30 @@ pub open spec fn tol_aa(a: int, b: int, t: nat, l: nat, tt: nat) -> int {
 }
 pub open spec fn tol_bb(a: int, b: int, t: nat, l: nat, tt: nat) -> int {
     ipow(2, tt) * b + ipow(2, l + t + tt / 2 + 1) * isqrt(b - a)
+}
+
+/// verifier's predicate of the proof with tolerance (Algorithm 8) for the commitment e (= E' of the caller)
+pub open spec fn tol_accept_i<H>(p: ProofWt, g: int, h: int, e: int, n: int, a: int, b: int, t: nat, l: nat, tt: nat) -> bool {
+    let e_a = divm_spec(e, pow_mod(g, tol_aa(a, b, t, l, tt), n), n);
+    let e_b = divm_spec(pow_mod(g, tol_bb(a, b, t, l, tt), n), e, n);
+    &&& p.proof_of_square_a.E@ == p.E_a_1@ && p.proof_of_square_b.E@ == p.E_b_1@
+    &&& p.E_a_2@ == divm_spec(e_a, p.E_a_1@, n) && p.E_b_2@ == divm_spec(e_b, p.E_b_1@, n)
+    &&& square_accept_i::<H>(p.proof_of_square_a, g, h, n) && square_accept_i::<H>(p.proof_of_square_b, g, h, n)
+    &&& li_accept_i::<H>(p.proof_large_i_a, p.E_a_2@, g, h, n, t, l, b, tt) && li_accept_i::<H>(p.proof_large_i_b, p.E_b_2@, g, h, n, t, l, b, tt)
+}
+
+/// verifier's predicate of the square-decomposition range proof (Algorithm 10)
+pub open spec fn sdr_accept_i<H>(p: Boudot2000RangeProof, g: int, h: int, n: int, a: int, b: int, t: nat, l: nat, tt: nat) -> bool {
+    &&& p.E_prime@ == pow_mod(p.E@, ipow(2, tt), n)
+    &&& tol_accept_i::<H>(p.proof_of_tolerance, g, h, p.E_prime@, n, a, b, t, l, tt)
+}
+
+/// T of prove / verify: 2 (t + l + 1) + |b - a| in bits
+pub open spec fn range_tt(a: int, b: int) -> nat { (2 * (128 + 40 + 1) + bit_len(b - a)) as nat }
+
+/// the complete acceptance predicate of Boudot2000RangeProof::verify (t = 128, l = 40)
+pub open spec fn range_accept_i<H>(p: Boudot2000RangeProof, g: int, h: int, n: int, a: int, b: int) -> bool {
+    sdr_accept_i::<H>(p, g, h, n, a, b, 128, 40, range_tt(a, b))
 }
 
 pub proof fn lemma_ipow2_pos(k: nat)
